@@ -59,7 +59,7 @@ theorem scaleUp_err (v : PyVal) (sc : Scale) : ErrIn (fun e => e.walkOK = true) 
 
 theorem readVal_err (ty sc p off n) : ErrIn (fun e => e.walkOK = true) (readVal ty sc p off n) := by
   intro e h
-  unfold readVal at h
+  unfold readVal decodeVal at h
   split at h
   · rename_i e' he; cases h; exact bytes2val_err _ _ _ he
   · split at h
